@@ -47,8 +47,14 @@ func (c *FnCtx) special(frame *Frame, st *State, in ssa.Instruction, call *ssa.C
 		}
 	}
 	if key == "sort.Reverse" && len(args) == 1 {
-		// the reversed view sorts the same underlying data (order is not modelled)
-		k(st, args[0])
+		// the reversed view sorts the same underlying data with Less(i, j) replaced by Less(j, i)
+		r := c.fresh("sort.reverse", "Int")
+		st.assume("(> " + r + " 0)")
+		if c.revOf == nil {
+			c.revOf = map[string]string{}
+		}
+		c.revOf[r] = args[0].S
+		k(st, Val{T: args[0].T, K: KIface, S: r})
 		return true
 	}
 	if key == "sort.Sort" || key == "sort.Stable" {
